@@ -291,4 +291,6 @@ def rule_PYTYPE(ctx, floor=150):
         r.violate('safe_spanning_type:%s' % '+'.join(pair), TI, fs.lineno,
                   'merging the kinds %s gives the C type %s (Python type %s): a value of kind %s assigned to the variable comes back as %s, '
                   'infer_types=False keeps its type' % (' and '.join(pair), res, pyt, '/'.join(lost), pyt))
+    ctl = _control_table(dom, m, False)
+    r.positive_control(any(is_c and set(labels) == {'C long', 'C double'} for labels, res, pyt, is_c, pyts in ctl), 'int merged with double becomes a C double')
     return r
